@@ -15,8 +15,8 @@ MANIFEST = {
     },
     "C14": {
         "technique": "Lean 4 proof (invariants of a small-step transition-system model of Server::run + Socket::Poll over all histories, callback scripts and kernel answers) + differential correspondence model vs real Server under virtual time with interposed clock_gettime/epoll_wait/epoll_ctl/send",
-        "text": "47 theorems over ALL histories of the Lean model (API calls, arbitrary callback scripts that create and remove timers, socket-pair clients, listeners and establishers also from inside callbacks (Act.mkTimer/mkPair/mkListener/mkEst, rm*), any epoll_wait answer in any order, any time advance, any send outcome): no_fault (no null/dangling pointer use), timer_queue_exact, timer_not_early, timer_order, timer_once_per_interval, timer_intervals_positive, activation_moves_due_forward, poll_timeout_is_next_due, callbacks_only_to_live, removed_never_called (all four object kinds, also with events pending), dispatch_only_registered_kinds, client_interest, suspended_client_no_onRead, failed_io_then_onClosed at history level (a queued client gets onClosed or is deleted before run() polls again; membership in the closing list persists across all calls and scripts), run_returns_only_on_interrupt, interrupt_returns_run, interrupt_never_lost, interrupt_eventually_returns (from any reachable state with a pending interrupt run() returns after finitely many steps for every kernel answer that reports the event descriptor — well-founded measure; for quiet callback scripts), kernel_is_asked_again (conditional progress form of ready_eventually_dispatched) (interrupt() of other threads as two interleaved moves). The model is tied to the current Server.cpp/Socket.cpp on every run: identical op lines are executed on a real Server (socket pairs, loop-back listeners and establishers, virtual clock, epoll_wait answered from the really-ready set permuted/truncated by the schedule, callback scripts) and on the compiled model; an independent Python reference timer scheduler predicts pure timer programs exactly and a monitor evaluates removed_never_called / timer_not_early / timer_order / timeliness / live-object sets directly on the implementation's callback log.",
-        "note": "Trusted: Lean kernel + the three standard axioms; hand translation of run()/Poll into the model (validated by the correspondence run, not proved). Modelled rather than verified: MultiMap as a key-sorted FIFO multimap with lower-bound find (C01 incl. the repair of D1 — without it the check reports D19 with a 2-timer failing input), PoolList/HashSet/HashMap as reference containers (C02/C03), kernel epoll/eventfd/socket readiness (assumption; the harness prints ENV-FAIL when the kernel deviates), interrupt() from another thread as two moves (flag under the mutex, then event-descriptor write) interleaved arbitrarily with run() in the theorems — the correspondence run exercises interrupt() from callbacks, between runs, from inside epoll_wait and (op `runmt`; timers-only programs and programs with idle registered sockets) from a real second thread racing with run(); weak-memory effects on the unlocked read of _interrupted are not modelled, host-name resolving establishers and Server::clear() not modelled, failing connects are injected through an interposed getsockopt(SO_ERROR) (a real refused loop-back connect is not deterministic), peers of accepted/connected TCP clients never close in the correspondence runs. OPEN (not proved): ready_eventually_dispatched (liveness under kernel fairness) and real-time bounds; the model proves only that run() never sleeps past a due timer. Top-level API moves may interleave with steps while run() is active: an over-approximation for the safety theorems, not a claim that remove() is thread-safe. The model mirrors the repaired code (fixes/server/01, 02, 03: Server::time raises an interval below 1 ms to 1 ms — with interval 0 the timer loop never ended and interrupt() could not make run() return).",
+        "text": "61 theorems over ALL histories of the Lean model (API calls, arbitrary callback scripts that create and remove timers, socket-pair clients, listeners and establishers also from inside callbacks (Act.mkTimer/mkPair/mkListener/mkEst, rm*), any epoll_wait answer in any order, any time advance, any send outcome): no_fault (no null/dangling pointer use), timer_queue_exact, timer_not_early, timer_order, timer_once_per_interval, timer_intervals_positive, activation_moves_due_forward, poll_timeout_is_next_due, callbacks_only_to_live, removed_never_called (all four object kinds, also with events pending), dispatch_only_registered_kinds, client_interest, suspended_client_no_onRead, failed_io_then_onClosed at history level (a queued client gets onClosed or is deleted before run() polls again; membership in the closing list persists across all calls and scripts), run_returns_only_on_interrupt, interrupt_returns_run, interrupt_never_lost, interrupt_eventually_returns (from any reachable state with a pending interrupt run() returns after finitely many steps for every kernel answer that reports the event descriptor — well-founded measure; for quiet callback scripts), kernel_is_asked_again (quiet scripts) and kernel_is_asked_again_any_scripts (ARBITRARY scripts — timer creation, read, write inside callbacks — under ClockOk and ClosingCalm), pending_event_dispatched_or_pruned, ready_eventually_dispatched (liveness over infinite runs: under the explicit kernel-fairness hypothesis KernelFair, after every point of the run there is a later step at which run() has returned, or a non-empty event of the socket is handed to the dispatch switch, or set()/remove() on that socket pruned its event), event_pruned_only_through_its_socket, ready_eventually_dispatched_untouched_socket, interrupt_eventually_returns_any_scripts (the same as interrupt_eventually_returns for arbitrary scripts under ClockOk and ClosingCalm), poll_set_remove_keep_other_events, poll_set_covering_keeps_event, connect_event_outcome (exactly one of onConnected/onAbolished per connect event), connect_event_unregisters, accept_event_outcome (interrupt() of other threads as two interleaved moves). The model is tied to the current Server.cpp/Socket.cpp on every run: identical op lines are executed on a real Server (socket pairs, loop-back listeners and establishers, virtual clock, epoll_wait answered from the really-ready set permuted/truncated by the schedule, callback scripts) and on the compiled model; an independent Python reference timer scheduler predicts pure timer programs exactly and a monitor evaluates removed_never_called / timer_not_early / timer_order / timeliness / live-object sets directly on the implementation's callback log.",
+        "note": "Trusted: Lean kernel + the three standard axioms; hand translation of run()/Poll into the model (validated by the correspondence run, not proved). Modelled rather than verified: MultiMap as a key-sorted FIFO multimap with lower-bound find (C01 incl. the repair of D1 — without it the check reports D19 with a 2-timer failing input), PoolList/HashSet/HashMap as reference containers (C02/C03), kernel epoll/eventfd/socket readiness (assumption; the harness prints ENV-FAIL when the kernel deviates), interrupt() from another thread as two moves (flag under the mutex, then event-descriptor write) interleaved arbitrarily with run() in the theorems — the correspondence run exercises interrupt() from callbacks, between runs, from inside epoll_wait and (op `runmt`; timers-only programs and programs with idle registered sockets) from a real second thread racing with run(); weak-memory effects on the unlocked read of _interrupted are not modelled, host-name resolving establishers and Server::clear() not modelled, failing connects are injected through an interposed getsockopt(SO_ERROR) (a real refused loop-back connect is not deterministic), peers of accepted/connected TCP clients never close in the correspondence runs. Hypotheses of the liveness theorems (explicit in the statements): KernelFair (environment: if the kernel is asked again and again, then again and again an answer reports the socket ready — satisfiability of it for a concrete infinite run is exhibited only on a finite prefix, example exLive), ClosingCalm (an onClosed callback does not make a client fail again; without it the closing loop of the C++ never ends either; implied by scripts without read/write), ClockOk (the clock is not behind the time the timer loop sampled; established by entering run() and by every poll step). 'Dispatched' means handed to the dispatch switch of run() (HandsOut); that the callback is of a registered kind is dispatch_only_registered_kinds. OPEN (not proved): real-time bounds (the model proves only that run() never sleeps past a due timer); the 64-event cap of one epoll_wait is not modelled (it is the reason KernelFair says 'some later answer'). Not modelled / not executed (docs/server.md, coverage table): host-name resolving establishers, Server::clear(), socket options, failing listen/connect/pair/accept. The branch-hit table of run() (coverage.branch_hits, 41 branches/situations) is measured on every run; 3 are never hit and explained in coverage.branches_never_hit. Top-level API moves may interleave with steps while run() is active: an over-approximation for the safety theorems, not a claim that remove() is thread-safe. The model mirrors the repaired code (fixes/server/01, 02, 03: Server::time raises an interval below 1 ms to 1 ms — with interval 0 the timer loop never ended and interrupt() could not make run() return).",
         "design_ref": "DESIGN.md 3/C14",
     },
 }
@@ -1017,6 +1017,7 @@ def check_c14(ctx):
         "MultiMap<int64, TimerImpl*> is a key-sorted multimap, FIFO among equal keys, whose find() returns the FIRST element with the key (property C01 with the repair of D1); without that repair the check reports D19",
         "PoolList / HashSet / HashMap behave as their reference containers (C02, C03); allocation never fails",
         "host-name resolving establishers (Server::connect(String…)) and Server::clear() are not modelled",
+        "liveness (ready_eventually_dispatched): KernelFair — if run() asks the kernel again and again, then again and again an answer reports the socket ready (level-triggered epoll; at once unless more than 64 descriptors are ready); ClosingCalm — onClosed callbacks do not make a client fail again; ClockOk — CLOCK_MONOTONIC does not run backwards while the timer loop runs",
     ]
     proof_ok = C.proof_stage(ctx, PROPS["C14"], [DRIVER], leanchecker=(ctx.tier == "thorough"))
     harness = build(ctx)
@@ -1067,10 +1068,10 @@ def check_c14(ctx):
         ctx.cov["env_fail_lines"] = st.envfail
         ctx.cov["runs_interrupted_by_a_real_second_thread"] = getattr(st, "mt", 0)
         ctx.cov["open_statements"] = [
-            "interrupt_eventually_returns and kernel_is_asked_again are proved for QUIET callback scripts (no timer creation, no read/write inside callbacks) and for every kernel answer that reports the event descriptor; for arbitrary scripts they are false in the C++ as well (a script that reads a closed client again inside onClosed re-queues it forever) — the exact class of admissible scripts between 'quiet' and 'arbitrary' is not characterised",
-            "ready_eventually_dispatched: under a fair kernel every registered ready socket is eventually dispatched (liveness; only the safety half is proved: buffered_events_are_registered, dispatch_only_registered_kinds)",
+            "ready_eventually_dispatched is proved under the explicit hypotheses KernelFair (environment), ClosingCalm (an onClosed callback does not make a client fail again — a script that reads a closed client again inside onClosed re-queues it forever, in the C++ as well) and ClockOk; KernelFair of a concrete infinite run is exhibited only on a finite prefix (exLive)",
+            "interrupt_eventually_returns_any_scripts and kernel_is_asked_again_any_scripts hold for arbitrary scripts under ClosingCalm; the class of scripts between 'no read/write' (which implies ClosingCalm) and ClosingCalm itself is characterised only semantically",
             "interrupt() racing with run(): proved for the two-move model (flag, then event descriptor) under sequential consistency; exercised with a real second thread (op runmt) in timers-only programs and with idle clients/listeners registered",
-            "resolver-based establishers (connect by host name) are not modelled; a failing connect is injected through the interposed getsockopt(SO_ERROR)",
+            "not modelled: resolver-based establishers (connect by host name), Server::clear(), socket options, failing listen/connect/pair/accept; a failing connect is injected through the interposed getsockopt(SO_ERROR); the 64-event cap of one epoll_wait",
         ]
         ctx.log(f"{len(hs)} histories, {ctx.cov['evaluations']} op lines, {len(diffs)} disagreement(s), monitor failures {len(st.fail)}; callbacks {st.ev}; env-fail {st.envfail}")
         # a history in which the kernel did not behave as assumed is not evidence of anything
